@@ -231,8 +231,16 @@ Theorem C04_session_flush_decodes : forall upper oem acc im fi name now ops rang
        img_get (s_im st) a = img_get im a) /\
     (forall c, 2 <= c < g_clusters g + 2 -> fat_val g im c <> FFree ->
        fat_val g (s_im st) c = fat_val g im c /\ cluster_bytes g (s_im st) c = cluster_bytes g im c) /\
-    (forall c, 2 <= c < g_clusters g + 2 -> fat_val g im c = FFree -> ~ In c l -> fat_val g (s_im st) c = FFree).
+    (forall c, 2 <= c < g_clusters g + 2 -> fat_val g im c = FFree -> ~ In c l -> fat_val g (s_im st) c = FFree) /\
+    (forall i, (i < root_slot_count g)%nat -> (N.of_nat i < fst range \/ snd range <= N.of_nat i) ->
+       nth i (root_region_slots g (s_im st)) [] = nth i (root_region_slots g im) []).
 Proof. exact session_flush_decodes. Qed.
+
+(* the two decode premises of C04_session_flush_decodes hold on every WELL-FORMED volume (Spec/Wf.wf_issues = [], the C03
+   invariant): no root decode issue, no broken chain anywhere in the tree *)
+Theorem C04_session_wf_premises : forall fold im, g_bits (parse_geom im) <> 32 -> Wf.wf_issues fold im = [] ->
+  v_root_issues (abs im) = [] /\ forallb node_intact (v_root (abs im)) = true.
+Proof. exact wf_session_premises. Qed.
 
 (* the decode frame behind the "old nodes" clause, on its own: two images that agree on the FAT value and the data of every
    cluster that is NOT FREE in the first decode every tree without broken chains alike, to any depth *)
@@ -319,5 +327,6 @@ Print Assumptions C04_session_create_bytes_ok.
 Print Assumptions C04_session_open_is_created.
 Print Assumptions C04_session_flush_shape.
 Print Assumptions C04_session_flush_decodes.
+Print Assumptions C04_session_wf_premises.
 Print Assumptions C04_session_decode_frame.
 Print Assumptions C04_session_format_decodes.
